@@ -352,6 +352,11 @@ class CompartmentalModel:
             msg = "There is already a birth flow in this model, cannot add a second."
             raise ValueError(msg)
 
+        # The births replace the deaths of the whole model once: when the destination matches several
+        # compartments they are shared equally between them (as stratifying the destination later does)
+        dest_comps = [c for c in self.compartments if c.is_match(dest, dest_strata or {})]
+        adjustments = [Multiply(1.0 / len(dest_comps))] if len(dest_comps) > 1 else None
+
         self._add_entry_flow(
             flows.ReplacementBirthFlow,
             name,
@@ -359,6 +364,7 @@ class CompartmentalModel:
             dest,
             dest_strata,
             expected_flow_count,
+            adjustments,
         )
 
     def add_importation_flow(
